@@ -627,7 +627,8 @@ int h_thread_wait_parked_or_blocked(void *h, long calls_before, int timeout_ms) 
         ts.tv_nsec -= 1000000000L;
     }
     pthread_mutex_lock(&wmu);
-    while (!(t->state == W_PARKED || t->state == W_DONE || (t->state == W_BLOCKED && recv_calls > calls_before))) {
+    /* t->go still set = a release the thread has not yet woken up to: its state is stale */
+    while (t->go || !(t->state == W_PARKED || t->state == W_DONE || (t->state == W_BLOCKED && recv_calls > calls_before))) {
         if (pthread_cond_timedwait(&wcv, &wmu, &ts)) {
             r = -1;
             break;
